@@ -364,17 +364,49 @@ var quats = [3][4]float64{
 	{-4. / 9, 2. / 9, 6. / 9, 5. / 9},
 }
 
-func modelT(k int) [3]float64 { return [3]float64{1.5 + float64(k), -2.25, 3.1 + 0.5*float64(k)} }
-func modelR(k int) [4]float64 { return quats[k%3] }
-func modelS(k int) [3]float64 { return [3]float64{2 + float64(k), 0.5, 1.25} }
+// A transform selector "L<r>" sets all three components from the float32 ladder starting at rung r
+// (translation and scale components are consecutive rungs; the rotation carries one ladder value
+// clamped into [-1,1] beside the components of a fixed unit quaternion — the writer is to pass the
+// model's numbers through, whatever they are).
+func ladderRung(sel string) (int, bool) {
+	if len(sel) > 1 && sel[0] == 'L' {
+		if r, err := strconv.Atoi(sel[1:]); err == nil && r >= 0 {
+			return r, true
+		}
+	}
+	return 0, false
+}
+
+func lad(r int) float64 { return float64(math.Float32frombits(f32Ladder[r%len(f32Ladder)])) }
+
+func modelT(k int, sel string) [3]float64 {
+	if r, ok := ladderRung(sel); ok {
+		return [3]float64{lad(r), lad(r + 1), lad(r + 2)}
+	}
+	return [3]float64{1.5 + float64(k), -2.25, 3.1 + 0.5*float64(k)}
+}
+func modelR(k int, sel string) [4]float64 {
+	if r, ok := ladderRung(sel); ok {
+		q := quats[r%3]
+		q[r%4] = math.Max(-1, math.Min(1, lad(r+7)))
+		return q
+	}
+	return quats[k%3]
+}
+func modelS(k int, sel string) [3]float64 {
+	if r, ok := ladderRung(sel); ok {
+		return [3]float64{lad(r + 3), lad(r + 4), lad(r + 5)}
+	}
+	return [3]float64{2 + float64(k), 0.5, 1.25}
+}
 
 func instT(k, j int) [3]float64 { return [3]float64{float64(k) + 0.1, float64(j) + 0.2, -0.3} }
 func instR(k, j int) [4]float64 { return quats[(k+j+1)%3] }
 func instS(k, j int) [3]float64 { return [3]float64{1 + 0.5*float64(j), 2.1, 0.7 + float64(k)} }
 
-func hasT(t string) bool { return t == "T" || t == "TRS" }
-func hasR(t string) bool { return t == "R" || t == "TRS" }
-func hasS(t string) bool { return t == "S" || t == "TRS" }
+func hasT(t string) bool { _, l := ladderRung(t); return l || t == "T" || t == "TRS" }
+func hasR(t string) bool { _, l := ladderRung(t); return l || t == "R" || t == "TRS" }
+func hasS(t string) bool { _, l := ladderRung(t); return l || t == "S" || t == "TRS" }
 
 func v3(a [3]float64) vector3.Float64 { return vector3.New(a[0], a[1], a[2]) }
 func q4(a [4]float64) quaternion.Quaternion {
@@ -396,15 +428,15 @@ func Build(cs Case) gltf.PolyformScene {
 	for k, ms := range cs.Models {
 		m := gltf.PolyformModel{Name: modelName(k), Mesh: p.meshPtr(ms.Mesh), Material: p.material(ms.Mat)}
 		if hasT(ms.TRS) {
-			t := v3(modelT(k))
+			t := v3(modelT(k, ms.TRS))
 			m.Translation = &t
 		}
 		if hasR(ms.TRS) {
-			r := q4(modelR(k))
+			r := q4(modelR(k, ms.TRS))
 			m.Rotation = &r
 		}
 		if hasS(ms.TRS) {
-			s := v3(modelS(k))
+			s := v3(modelS(k, ms.TRS))
 			m.Scale = &s
 		}
 		for j := 0; j < ms.Inst; j++ {
